@@ -5,7 +5,7 @@
      POST = (XID DATE PAYEEHEX XPAYEEHEX ACCTHEX VIRT STATE NUM DEN PREC SYMHEX)
             PAYEE = post_t::payee() of the posting, XPAYEE = the payee of its transaction
    -> "ID OK row;row;..." | "ID UNSPEC" | "ID ERR"
-      row = xid|date|payee|accthex|amount|total ; payee = N:hex | U:days | W:k *)
+      row = xid|date|payee|accthex|amount|total ; payee = N:hex | U:days | W:k | F:hex:days (strftime of the name for that date) *)
 let show_amt (a : amount) : string =
   let q = h_qred a.aq in
   Printf.sprintf "A:%s:%s/%s:%s:%d"
@@ -38,6 +38,7 @@ let key_of = function
 
 let show_payee = function
   | PName s -> "N:" ^ hex_of_str s
+  | PFmt (s, d) -> "F:" ^ hex_of_str s ^ ":" ^ string_of_z d
   | PUntil d -> "U:" ^ string_of_z d
   | PDow k -> "W:" ^ string_of_z k
 
